@@ -1,9 +1,9 @@
 CONSTANTS
   MaxChain = 1
-  PathSet <- Quick1Paths
-  Combos <- QuickCombos
-  ClsSet <- Classes
-  OrderSet <- BothOrders
+  PathSet <- SvAll
+  Combos <- SvFullCombos
+  ClsSet <- ArrayOnly
+  OrderSet <- OrigFirst
   PreSet <- PlainPre
 INIT Init
 NEXT Next
